@@ -617,6 +617,12 @@ impl Array {
         } else {
             let flatten_dimension_count = self.dimensions.len().saturating_sub(dimensions.len());
 
+            // the target dimensions are right-aligned, so the additional leading dimensions are summed along
+            let target_dimensions: Vec<usize> = vec![1; flatten_dimension_count]
+                .into_iter()
+                .chain(dimensions.iter().copied())
+                .collect();
+
             let op: SlicedOp = Box::new(move |output_slice, arrays| {
                 let stride = output_slice.len();
                 for (i, output) in output_slice.iter_mut().enumerate() {
@@ -624,15 +630,17 @@ impl Array {
                 }
             });
 
-            Array::sliced_op(
+            let result = Array::sliced_op(
                 vec![&self],
                 &op,
                 None,
                 &self.dimensions,
-                dimensions,
-                flatten_dimension_count + 1,
+                &target_dimensions,
+                1,
                 0,
-            )
+            );
+
+            Array::from((dimensions.to_vec(), result.values))
         }
     }
 
